@@ -276,7 +276,10 @@ func (c *caller) Call(ctx context.Context, call *scheduler.Call) (mesos.Response
 	typ := call.GetType().String()
 	if w.CallLatency != nil && typ != "SUBSCRIBE" {
 		if d := w.CallLatency(typ); d > 0 {
-			simrt.Sleep(d) // the HTTP round trip to the master
+			// the HTTP round trip to the master: the master has the call (and acts on it, forwards a
+			// MESSAGE, ...) half way through, the caller gets its answer at the end
+			simrt.Sleep(d / 2)
+			defer simrt.Sleep(d - d/2)
 		}
 	}
 	lg := CallLog{Inc: c.inc, Type: typ, FwID: call.GetFrameworkID().GetValue()}
